@@ -22,6 +22,7 @@ FIRST = {
     "C08-C": "missed", "C08-D": "caught", "C15-C": "missed", "C15-D": "caught", "C17-C": "caught", "C17-D": "missed",
     "C20-C": "missed", "C20-D": "missed",
     "C18-C": "caught", "C18-D": "caught",
+    "C14-C": "missed", "C14-D": "caught", "C16-C": "missed", "C16-D": "caught",
 }
 
 
